@@ -45,9 +45,17 @@ H_CONV = H_COMMON + '''void harness(void) { char s[OSMT_N + 1]; mk_input(s);
     __CPROVER_assert(od != 0, "the string handed to GMP has a non-zero denominator");
     /* no leading zero may reach GMP unless it reads base 10 (a leading 0 means octal in base 0) */
     __CPROVER_assert(OSMT_GMP_BASE10 || ((g_norm_str[0] != '0' || o.alen == 1) && (o.sep != '/' || g_norm_str[o.alen + 1] != '0' || o.blen == 1)), "no leading zero reaches a base-0 mpq_set_str (it would be read as octal)");
-    u64 in_n, in_d;
-    if (l.sep == '.') { in_d = pow10u(l.blen); in_n = l.a * in_d + l.b; } else if (l.sep == '/') { in_n = l.a; in_d = l.b; } else { in_n = l.a; in_d = 1; }
-    __CPROVER_assert(on * in_d == in_n * od, "value: the converted fraction denotes exactly the literal");
+    /* value(out) == value(literal), i.e. on * in_d == in_n * od.  The denominators of a decimal literal are powers of ten, so the
+       products are taken by shift-add scaling; the general products are only formed when an output denominator is not a power of ten */
+    if (l.sep == '/') {
+      __CPROVER_assert((on == l.a && od == l.b) || on * l.b == l.a * od, "value: the converted fraction denotes exactly the literal");
+    } else {
+      int kin = (l.sep == '.') ? l.blen : 0;
+      u64 in_n = (l.sep == '.') ? scale10(l.a, kin) + l.b : l.a;
+      int ko = log10exact(od);
+      if (ko >= 0) __CPROVER_assert(scale10(on, kin) == scale10(in_n, ko), "value: the converted fraction denotes exactly the literal");
+      else __CPROVER_assert(on * pow10u(kin) == in_n * od, "value: the converted fraction denotes exactly the literal");
+    }
   }
   if (illformed) {
     __CPROVER_assert(__osmt_thrown != 0, "an ill-formed literal is rejected");
@@ -62,7 +70,7 @@ def h_conv_class(assume):
 def job(name, root, harness, N, **kw):
     loops = ['isIntString.0:%d' % (N + 2), 'isRealString.0:%d' % (N + 2), 'stringToRational.0:%d' % (N + 2), 'stringToRational.1:%d' % (N + 2),
              'stringToRational.2:%d' % (N + 2), 'stringToRational.3:%d' % (N + 2), 'normalize.0:%d' % (2 * N + 10), 'spec_parse.0:%d' % (2 * N + 10), 'spec_parse.1:%d' % (2 * N + 10),
-             'pow10u.0:%d' % (2 * N + 10), 'mk_input.0:%d' % (N + 2), 'harness.0:%d' % (N + 2), 'harness.1:%d' % (N + 2), 'harness.2:%d' % (N + 2)]
+             'pow10u.0:%d' % (2 * N + 10), 'scale10.0:%d' % (2 * N + 10), 'log10exact.0:%d' % (2 * N + 10), 'mk_input.0:%d' % (N + 2), 'harness.0:%d' % (N + 2), 'harness.1:%d' % (N + 2), 'harness.2:%d' % (N + 2)]
     return Job('%s.N%d' % (name, N), TU, root, tier='R', header='contracts/C16/strconv.h', harness=harness, enforce=False, pre_includes=(),
                stubs=('opensmt::normalize',), defines=('OSMT_N %d' % N, 'OSMT_GMP_BASE10 %d' % kw.pop('base10', 1)), unwindset=tuple(loops), default_unwind=2 * N + 10, min_obligations=3, timeout=1800,
                bounded_note='exhaustive over all NUL-terminated byte strings of at most %d bytes' % N, **kw)
